@@ -53,8 +53,9 @@ Definition xml_emit (ft : bool) (a : qname) (v : value) : xout :=
     match v with
     | VLit lex dt lg =>
         (match dt with
-         | Some d => if intl_string d then None
-                     else Some (qn_str d)          (* str(value.datatype), as repaired *)
+         | Some d => if (intl_string d && match lg with Some _ => true | None => false end)%bool then None
+                     else Some (qn_str d)          (* str(value.datatype), as repaired; xml:lang stands for
+                                                      prov:InternationalizedString only when there is a tag *)
          | None => None
          end, lg, lex)
     | VQn q => (if is_qname_attr a then None else Some "xsd:QName", None, qn_str q)
